@@ -186,6 +186,10 @@ func vPool(poolLimit, proxyLimit int64) (*ServerPool, *Server) {
 
 var vSymbolicRequest = true
 
+var vWellKnown string
+var vWellKnownHeaders = [][2]string{{"Expect", "100-continue"}, {"Authorization", "Basic dTpw"}, {"Cookie", "a=b"},
+	{"Content-Type", "text/plain"}, {"Range", "bytes=0-1"}, {"If-None-Match", "\"e\""}, {"Cache-Control", "no-cache"}}
+
 func vClientRequest(body []byte, stream bool) (*context.Context, *httpprot.Request, *http.Request) {
 	path, query, hv, method := "/p", "q=1", "v", "POST"
 	if vSymbolicRequest {
@@ -195,6 +199,13 @@ func vClientRequest(body []byte, stream bool) (*context.Context, *httpprot.Reque
 		method = []string{"GET", "POST", "PUT"}[verifChoose("req.method", 3)]
 	}
 	hdr := http.Header{"X-End-To-End": []string{hv}, "Accept-Encoding": []string{"gzip"}}
+	vWellKnown = ""
+	if vSymbolicRequest {
+		// one of the well-known END-TO-END fields a proxy might be tempted to treat specially
+		k := verifChoose("req.wellKnownEndToEndHeader", len(vWellKnownHeaders))
+		vWellKnown = vWellKnownHeaders[k][0]
+		hdr[vWellKnown] = []string{vWellKnownHeaders[k][1]}
+	}
 	std := &http.Request{Method: method, Host: "client.host",
 		URL: &url.URL{Path: path, RawQuery: query}, Header: hdr, Proto: "HTTP/1.1"}
 	std = std.WithContext(stdcontext.Background())
@@ -358,6 +369,13 @@ func vForward(requestSide bool) {
 	e2e := s.header["X-End-To-End"]
 	verifAssert(len(e2e) == 1 && e2e[0] == std.Header["X-End-To-End"][0], "end-to-end-header-forwarded")
 	verifAssert(len(std.Header["X-End-To-End"]) == 1, "client-request-headers-not-modified")
+	if vWellKnown != "" {
+		got := s.header[vWellKnown]
+		verifAssert(len(got) == 1 && got[0] == std.Header[vWellKnown][0], "end-to-end-header-forwarded")
+		if vWellKnown == "Expect" {
+			verifCover("expect-header-forwarded")
+		}
+	}
 
 	// ---- what the client gets
 	effective := poolLimit
